@@ -9,7 +9,9 @@
    by the job id / dataset id *carried by the report*. *)
 From Coq Require Import List NArith ZArith String Bool.
 From EKW Require Import Gateway.Router Gateway.RouterProofs Gateway.IdSource Gateway.IdSourceProofs.
+From EKW Require Import Gateway.Reporter Gateway.ReporterProofs.
 From EKW Require Gateway.RouterCheck.   (* not used here: keeps the correspondence checker's .vo in step with the model *)
+From EKW Require Gateway.ReporterCheck.
 Import ListNotations.
 Open Scope string_scope.
 Open Scope list_scope.
@@ -234,6 +236,67 @@ Proof. split; [reflexivity|]. split; [reflexivity|]. eexists _, _. split; [vm_co
 Example C18_never_leaves_loop_nonvacuous : Forall own_socket ex_pre /\ List.length ex_pre = 10%nat.
 Proof. split; [|reflexivity]. repeat constructor. Qed.
 
+(* (1') Round 6.  The producer of the reports is the controller's Reporter (Gateway/Reporter.v).  A send_progress call of
+   the code as it is puts one progress item on the wire: the status, stamped with the reading of the controller's clock AT
+   THE CALL and with the job the Reporter was made for ... *)
+Theorem C18_reporter_stamps_at_the_call : forall j now p,
+  p <> JobProgressShutdown ->
+  prog_of (emit j now (SendProgress p)) = [(now, p)] /\ r_job (emit j now (SendProgress p)) = j /\
+  forall calls r, In r (reporter j calls) -> r_job r = j.
+Proof.
+  intros j now p Hp. split; [exact (reporter_progress_item j now p Hp)|]. split; [reflexivity|].
+  intros calls r H. exact (reporter_with_job _ j calls r H).
+Qed.
+
+(* ... so that, whatever the network did (order, repeats, omissions), the gateway shows a RECEIVED report than which no
+   received one was sent later ... *)
+Theorem C18_shown_is_a_newest_received : forall j evs outs st jb,
+  run [] evs = (outs, Ok st) -> jlookup j st = Some jb ->
+  progress_reports j evs outs <> [] ->
+  (forall x, In x (progress_reports j evs outs) -> (-1 < fst x)%Z) ->
+  In (last_seen jb, progress jb) (progress_reports j evs outs) /\
+  forall x, In x (progress_reports j evs outs) -> (fst x <= last_seen jb)%Z.
+Proof. exact shown_is_a_newest_received. Qed.
+
+(* ... and, when the clock moved between the calls, exactly the one sent last among the received *)
+Theorem C18_shown_is_the_last_sent : forall j evs outs st jb,
+  run [] evs = (outs, Ok st) -> jlookup j st = Some jb ->
+  progress_reports j evs outs <> [] ->
+  (forall x, In x (progress_reports j evs outs) -> (-1 < fst x)%Z) ->
+  (forall x y, In x (progress_reports j evs outs) -> In y (progress_reports j evs outs) -> fst x = fst y -> x = y) ->
+  In (last_seen jb, progress jb) (progress_reports j evs outs) /\
+  forall x, In x (progress_reports j evs outs) -> x <> (last_seen jb, progress jb) -> (fst x < last_seen jb)%Z.
+Proof. exact shown_is_the_last_sent. Qed.
+
+(* A Reporter whose timestamp is evaluated once (a default argument, a value kept from construction) breaks the property
+   although the gateway is unchanged: every report carries the same stamp (frozen_items_same_stamp), the gateway shows the
+   first progress report it received for ever. *)
+Theorem C18_stamp_evaluated_once_refuted : exists t0 calls picks,
+  shows "100.00" (demo (reporter 7%N calls) picks) = true /\
+  shows "25.00" (demo (reporter_frozen t0 7%N calls) picks) = true /\
+  forall r x, In r (reporter_frozen t0 7%N calls) -> In x (prog_of r) -> fst x = t0.
+Proof.
+  destruct frozen_stamp_refuted as (t0 & calls & picks & H1 & H2). exists t0, calls, picks.
+  split; [exact H1|]. split; [exact H2|]. intros r x. exact (frozen_items_same_stamp t0 7%N calls r x).
+Qed.
+
+Definition ex_rep_evs : list event :=
+  Fe (SubmitJobRequest [7%N] true) :: deliveries 7%N (reporter 7%N demo_calls) [3; 0; 1; 0]%nat.
+
+Example C18_shown_is_the_last_sent_nonvacuous :
+  exists outs st jb,
+    run [] ex_rep_evs = (outs, Ok st) /\ jlookup 7%N st = Some jb /\
+    progress_reports 7%N ex_rep_evs outs = [(3000%Z, "100.00"); (1000%Z, "25.00"); (2000%Z, "50.00"); (1000%Z, "25.00")] /\
+    (last_seen jb, progress jb) = (3000%Z, "100.00").
+Proof.
+  eexists _, _, _. split; [vm_compute; reflexivity|]. split; [vm_compute; reflexivity|]. split; vm_compute; reflexivity.
+Qed.
+
+Example C18_reporter_stamps_at_the_call_nonvacuous :
+  map prog_of (reporter 7%N demo_calls) = [[(1000%Z, "25.00")]; [(2000%Z, "50.00")]; []; [(3000%Z, "100.00")]; []].
+Proof. vm_compute. reflexivity. Qed.
+
+
 Print Assumptions C18_progress_is_newest.
 Print Assumptions C18_shutdown_keeps_progress.
 Print Assumptions C18_socket_read_until_shutdown.
@@ -248,3 +311,7 @@ Print Assumptions C18_unknown_is_local_error.
 Print Assumptions C18_known_jobs_answered.
 Print Assumptions C18_query_is_local.
 Print Assumptions C18_never_leaves_loop.
+Print Assumptions C18_reporter_stamps_at_the_call.
+Print Assumptions C18_shown_is_a_newest_received.
+Print Assumptions C18_shown_is_the_last_sent.
+Print Assumptions C18_stamp_evaluated_once_refuted.
